@@ -236,6 +236,8 @@ def _join_ok(j, tab, alters):
     types, NOT NULL, the primary key over all of them and the two foreign keys back."""
     cols = tab['columns']
     want_types = j['left'][2] + j['right'][2]
+    if len({c['name'] for c in cols}) != len(cols):
+        return 'COLLIDE join table column names are not unique: ' + repr([c['name'] for c in cols])
     if sorted(c['type'] for c in cols) != sorted(want_types):
         return 'column types ' + repr([c['type'] for c in cols]) + ' != referenced column types ' + repr(want_types)
     if not all(c['not_null'] for c in cols):
@@ -285,15 +287,15 @@ def compare_c04(m, stmts):
     else:
         join_names = set(exp_names)
         alter_pool = [s for s in stmts if s['kind'] == 'alter_fk' and tuple(s['table']) in join_names]
+        import itertools
         for j in joins:
             cands = [s for s in pool if s['name'] == j['name']]
-            why = 'no CREATE TABLE'
+            reasons = []
             done = False
             for s in cands:
-                # the two ALTERs that follow this CREATE TABLE: take those on the same name, try every pair
                 al = [a for a in alter_pool if a['table'] == j['name']]
-                import itertools
-                for pair in itertools.combinations(al, 2):
+                pairs = list(itertools.combinations(al, 2)) or [tuple(al)]
+                for pair in pairs:
                     why = _join_ok(j, s, list(pair))
                     if why is None:
                         pool.remove(s)
@@ -301,12 +303,12 @@ def compare_c04(m, stmts):
                             alter_pool.remove(a)
                         done = True
                         break
-                else:
-                    if len(al) < 2:
-                        why = _join_ok(j, s, al)
+                    reasons.append(why)
                 if done:
                     break
             if not done:
+                # several join tables may share a name: report the collision reason if one of the candidates has it
+                why = next((r for r in reasons if r.startswith('COLLIDE')), reasons[-1] if reasons else 'no CREATE TABLE')
                 probs.append(f'many-to-many {j["left"][0]} <> {j["right"][0]}: join table {j["name"]}: {why}')
         if alter_pool and not probs:
             probs.append(f'extra foreign keys on join tables: {[a["fk"] for a in alter_pool][:2]}')
